@@ -322,7 +322,7 @@ HIST_KINDS = ["T", "M", "NM", "Cnt", "Ref", "NRef", "EP", "EPV", "FS", "U8", "Mo
 
 
 def c10(res, tier, seed):
-    model_check(res, [("history", "MC_Scan_history.cfg"), ("cap", "MC_Scan_cap.cfg")])
+    model_check(res, [("history", "MC_Scan_history.cfg"), ("cap", "MC_Scan_cap.cfg"), ("fibers", "MC_Scan_fibers.cfg")])
     expect_model_violation(res, [("D1", "MC_Scan_history_D1.cfg", "ProtocolOK"), ("D10", "MC_Scan_history_D10.cfg", "NoLeak")])
     r = yv.rng(seed, "c10")
     for variant in ("asan", "small"):
@@ -332,10 +332,27 @@ def c10(res, tier, seed):
             nrules = r.randint(2, 8) if hi % 6 else r.randint(65, 75)
             nns = r.randint(1, 3) if hi % 5 else r.randint(9, 12)
             rules = random_ruleset(r, nrules, nns, 2, HIST_KINDS, padprob=0.15 if nrules < 10 else 0.0)
+            fibers = hi % 3 == 1
+            if fibers:
+                # regexp family: markers matched through the regexp engine, plus a rule whose regexp exhausts the fiber pool on
+                # "bomb" blocks: that scan must end with ERROR_TOO_MANY_RE_FIBERS and leave the scanner as good as new
+                for q in rules:
+                    if q["mk"] and not q.get("pad") and r.random() < 0.7: q["re"] = True
+                if not any(q.get("re") for q in rules):
+                    rules.append(rule(rules[-1]["ns"], False, False, 1, C("M"))); rules[-1]["re"] = True
+                bomb = rule(rules[-1]["ns"], False, False, 0, C("F")); bomb["bomb"] = True
+                rules.insert(r.randint(0, len(rules)), bomb)
+                for q in rules:      # rule references are positional: re-resolve them after the insertion
+                    if q["cond"]["k"] in ("Ref", "NRef"): q["cond"] = C("T")
+                nrules = len(rules)
             scans = []
             for k in range(r.randint(2, 6) if tier == "quick" else r.randint(2, 12)):
                 kind = r.choice(["pe", "elf", "text", "text", "empty"])
                 f, data, sizes = random_file(r, 100 * hi + k + 1, 2, kind=kind)
+                if fibers and k < 4 and r.random() < 0.5:
+                    spec = [{"mk": [r.choice([0, 1, 2]), r.choice([0, 1])], "filler": 3, "gap": 1} for _ in range(r.choice([1, 1, 2, 3]))]
+                    spec[r.randrange(len(spec))]["bomb"] = True
+                    f, data, sizes = sg.make_file(100 * hi + k + 1, "text", spec, r.random() < 0.5, 2)
                 if variant == "small" and r.random() < 0.5 and kind != "empty":
                     # overflow the match cap of marker 1 (cap 6 in the small build)
                     spec = [{"mk": [r.choice([4, 7, 9]), r.choice([0, 1])], "filler": 4, "gap": 1}]
@@ -361,7 +378,8 @@ def c10(res, tier, seed):
             execs.append({"rules": rules, "scans": scans, "kind": "c10-history"})
         run_chunks(res, "C10", execs, variant, "c10_" + variant)
     res.cov["rule"] = ("histories of 2-12 scans on one scanner over PE/ELF/text/empty files x outcomes (ok, abort/error at message k, "
-                       "1 ns timeout, not-ready resumed / abandoned, match cap hit in the scaled build, continue/stop); every call's "
+                       "1 ns timeout, not-ready resumed / abandoned, match cap hit in the scaled build, regexp fiber pool exhausted by a bomb block "
+                       "with the other strings matched through the regexp engine, continue/stop); every call's "
                        "callbacks, result and residual scanner state validated against Scan.tla; distinct = distinct (rules, scan) tuples")
     res.assumptions += ["the 'small' build scales YR_MAX_STRING_MATCHES to 6 so the cap path is reachable; production constant in 'asan'",
                         "the scanner is destroyed at the end of every history, also when the last call left it suspended (LeakSanitizer judges)"]
